@@ -38,6 +38,30 @@ func (s *Sched) waitEventTimeout(d time.Duration) bool {
 	}
 }
 
+// waitEventOf waits for the event of task t; events of other tasks that
+// arrive meanwhile (stragglers finishing late) are remembered.
+func (s *Sched) waitEventOf(t *Task, d time.Duration) bool {
+	if s.late[t] {
+		delete(s.late, t)
+		return true
+	}
+	timer := time.After(d)
+	for {
+		select {
+		case x := <-s.ho.events:
+			if x == t {
+				return true
+			}
+			if s.late == nil {
+				s.late = map[*Task]bool{}
+			}
+			s.late[x] = true
+		case <-timer:
+			return false
+		}
+	}
+}
+
 func (t *Task) publishDone() {}
 func (t *Task) acquireDone() {}
 
